@@ -66,6 +66,10 @@ type Script struct {
 	// with an unbuffered output reads at most one item from an input between two quiescent
 	// points and producers blocked on a small input buffer keep it full at all times.
 	Strict bool `json:"receive_one_at_a_time,omitempty"`
+	// EpiHold (v2 only): in the epilogue, once the inputs are closed and everything available has
+	// been received, the consumer sits on the in-flight items for this many virtual ns before it
+	// releases the first of them (a slow handler).
+	EpiHold int64 `json:"epilogue_hold_ns,omitempty"`
 	// HandleLag: v1 simplified discipline: Handle returns this many virtual ns after its context
 	// was cancelled (it honours the context, it just is not instantaneous).
 	HandleLag int64 `json:"handle_return_lag_ns,omitempty"`
@@ -141,8 +145,9 @@ type Trace struct {
 	Deliveries       []Delivery
 	Snaps            []Snap
 	MaxInFlight      int
-	MaxPerPrio       map[uint]int // highest in-flight count seen per priority before the epilogue
-	OverCommit       string       // first moment in-flight exceeded H
+	MaxPerPrio       map[uint]int    // highest in-flight count seen per priority before the epilogue
+	MaxPerPrioAt     map[uint]string // where that count was reached
+	OverCommit       string          // first moment in-flight exceeded H
 	Noops            int
 	OpsDone          int
 
